@@ -11,6 +11,7 @@ import LtVerif.Proofs.DavStatus
 import LtVerif.Proofs.DavDest
 import LtVerif.Proofs.DavPut
 import LtVerif.Proofs.DavExamples
+import LtVerif.Proofs.DavCond
 namespace LtVerif.C18
 open LtVerif LtVerif.B LtVerif.Dav
 
@@ -223,5 +224,160 @@ theorem c18_put_protocol_witnesses :
     (runEvs Ex.cZero (init Ex.cZero) Ex.runZero).map (fun s => (s.pc, s.tmp, s.read)) = some (.done, none, some []) ∧
     runEvs Ex.cZero (init Ex.cZero) Ex.runZeroBug = none := by
   refine ⟨by decide, by decide, by decide, by decide, by decide, by decide, by decide⟩
+
+/-! ## 3. conditional request headers (webdav_if_match_or_unmodified_since, http_etag_create)
+
+  `DavCond.precond` is the C function on concrete header bytes, a concrete `struct stat` / errno and the
+  configured etag flags; part 1 uses only the truth values (`Dav.Pre`).  The theorems below say what
+  those truth values are, for ALL header values, stat records, flags and clocks. -/
+
+section Conditional
+open DavCond Cond Date
+
+/-- The Bool record `Dav.Pre` of the tree model is exactly the verdict of the C function: with entity
+    tags enabled, If-None-Match absent or "*", and a lookup that found the resource or failed with
+    ENOENT/ENOTDIR, the function answers 0 iff `Pre.holds` of the abstracted truth values
+    (If-Match: strong match of the current ETag; If-Unmodified-Since: not modified since) holds —
+    so `c18_status_rfc`/`c18_matches_reference` speak about the real evaluation. -/
+theorem c18_precond_refines_pre (now : Int) (flags : Nat) (im inm ius : Option Bytes) (lk : Lk)
+    (hf : flags ≠ 0) (hlk : lk ≠ .other) (hinm : inm = none ∨ inm = some [42]) :
+    precond now flags im inm ius lk = 0 ↔ (toPre now flags im inm ius lk).holds lk.ex = true := by
+  rw [precond_zero_iff now flags im inm ius lk hf]
+  rcases hinm with rfl | rfl <;> cases im <;> cases ius <;> cases lk <;>
+    simp_all [toPre, Dav.Pre.holds, imFails, inmFails, iusFails, Lk.ex, etagMatches_star]
+
+example : precond 0 7 (some (ofString "\"1\"")) (some [42]) none .enoent = 412 ∧
+    (toPre 0 7 (some (ofString "\"1\"")) (some [42]) none .enoent).holds false = false := by decide
+
+/-- No conditional header: never 412 (whatever the lookup says). -/
+theorem c18_precond_none (now : Int) (flags : Nat) (lk : Lk) : precond now flags none none none lk = 0 := by
+  simp [precond]
+
+example : precond 5 7 none none none .other = 0 := by decide
+
+/-- If-Match with a well-formed entity-tag list (RFC 9110 `#entity-tag`, any separators/whitespace, weak
+    and strong members) on an existing resource passes iff some listed tag is STRONG and has the opaque
+    tag of the current validator (RFC 9110 13.1.1, strong comparison) — for every stat record and flags. -/
+theorem c18_ifmatch_list (now : Int) (flags : Nat) (st : Stat) (hf : flags ≠ 0) (sep0 : Bytes)
+    (items : List (ETag × Bytes)) (h0 : AllDelim sep0) (hok : ItemsOk items) :
+    precond now flags (some (etagListText sep0 items)) none none (.found st) = 0 ↔
+      items.any (fun x => ETag.cmp false (curTag st flags) x.1) = true := by
+  rw [precond_zero_iff _ _ _ _ _ _ hf]
+  simp only [imFails, inmFails, iusFails, and_true, Bool.not_eq_false']
+  rw [etagCreate_text st flags hf, etagMatches_list _ (curTag_wf st flags) false sep0 items h0 hok]
+
+/-- If-None-Match with a well-formed list on an existing resource passes iff NO listed tag (weak
+    comparison) has the opaque tag of the current validator. -/
+theorem c18_ifnonematch_list (now : Int) (flags : Nat) (st : Stat) (hf : flags ≠ 0) (sep0 : Bytes)
+    (items : List (ETag × Bytes)) (h0 : AllDelim sep0) (hok : ItemsOk items) :
+    precond now flags none (some (etagListText sep0 items)) none (.found st) = 0 ↔
+      items.any (fun x => ETag.cmp true (curTag st flags) x.1) = false := by
+  rw [precond_zero_iff _ _ _ _ _ _ hf]
+  simp only [imFails, inmFails, iusFails, and_true, true_and]
+  rw [etagCreate_text st flags hf, etagMatches_list _ (curTag_wf st flags) true sep0 items h0 hok]
+
+example : AllDelim (ofString " ") ∧
+    ItemsOk [(⟨true, ofString "7"⟩, ofString ", "), (curTag ⟨1, 2, 3, 4⟩ 7, [])] := by
+  refine ⟨by unfold AllDelim; decide, by unfold ETag.WF; decide, by unfold ETag.NoDelim; decide,
+    by unfold AllDelim; decide, fun _ => by decide, single_ok _ _⟩
+
+/-- The entity tag the server hands out for the current state passes If-Match on that state … -/
+theorem c18_ifmatch_current (now : Int) (flags : Nat) (st : Stat) (hf : flags ≠ 0) :
+    precond now flags (some (etagCreate st flags)) none none (.found st) = 0 := by
+  rw [precond_zero_iff _ _ _ _ _ _ hf]
+  simp [imFails, inmFails, iusFails, etagMatches_cur st st flags hf]
+
+/-- … and an entity tag handed out for a state whose tag differs from the current one is refused with
+    412 whatever the other two headers say (lost-update protection: the PUT/DELETE/MOVE handlers return
+    before touching the tree, `c18_error_unchanged`).  The hypothesis is about TAGS, not states:
+    see `c18_etag_not_injective`. -/
+theorem c18_ifmatch_stale (now : Int) (flags : Nat) (st0 st : Stat) (inm ius : Option Bytes) (hf : flags ≠ 0)
+    (hne : etagCreate st flags ≠ etagCreate st0 flags) :
+    precond now flags (some (etagCreate st0 flags)) inm ius (.found st) = 412 := by
+  have h : imFails flags (some (etagCreate st0 flags)) (.found st) = true := by
+    simp [imFails, etagMatches_cur st st0 flags hf, hne]
+  unfold precond
+  simp [hf, h]
+
+example : etagCreate ⟨1234, 11, 1700000000, 0⟩ 7 ≠ etagCreate ⟨1234, 10, 1700000000, 0⟩ 7 := by decide +kernel
+
+/-- The validator is a 32-bit rotate-xor hash of (inode, size, mtime, nanoseconds), linear over GF(2):
+    different states can carry the same entity tag, so If-Match is a probabilistic guard.  Witness with the
+    default flags: same inode and second, 10 bytes vs 14 bytes written 33.554432 ms later. -/
+theorem c18_etag_not_injective :
+    etagCreate ⟨1234, 10, 1700000000, 0⟩ 7 = etagCreate ⟨1234, 14, 1700000000, 33554432⟩ 7 ∧
+    precond 0 7 (some (etagCreate ⟨1234, 10, 1700000000, 0⟩ 7)) none none
+      (.found ⟨1234, 14, 1700000000, 33554432⟩) = 0 := by
+  refine ⟨by decide +kernel, by decide +kernel⟩
+
+/-- `If-Match: *` passes exactly on an existing resource, `If-None-Match: *` exactly when the lookup failed
+    with ENOENT/ENOTDIR (create-only PUT; any other lstat error is answered 412). -/
+theorem c18_star_iff_exists (now : Int) (flags : Nat) (lk : Lk) (hf : flags ≠ 0) :
+    (precond now flags (some [42]) none none lk = 0 ↔ lk.ex = true) ∧
+    (precond now flags none (some [42]) none lk = 0 ↔ (lk = .enoent ∨ lk = .enotdir)) := by
+  constructor
+  · rw [precond_zero_iff _ _ _ _ _ _ hf]
+    cases lk <;> simp [imFails, inmFails, iusFails, Lk.ex, etagMatches_star]
+  · rw [precond_zero_iff _ _ _ _ _ _ hf]
+    cases lk <;> simp [imFails, inmFails, iusFails, etagMatches_star]
+
+example : precond 0 2 none (some [42]) none .other = 412 ∧ precond 0 2 none (some [42]) none .enotdir = 0 := by
+  decide
+
+/-- If-Unmodified-Since alone (independent of the etag flags) passes iff the resource exists, the value
+    parses as an HTTP-date `t` (any of the three formats) ≠ -1 and the modification time is not later. -/
+theorem c18_ius_iff (now : Int) (flags : Nat) (d : Bytes) (lk : Lk) :
+    precond now flags none none (some d) lk = 0 ↔
+      ∃ st t, lk = .found st ∧ dateToTime now d = some t ∧ st.mtime ≤ t ∧ t ≠ -1 := by
+  have h : precond now flags none none (some d) lk = if iusFails now (some d) lk then 412 else 0 := by
+    unfold precond
+    by_cases hf : flags = 0 <;> simp [hf, imFails, inmFails]
+  rw [h]
+  cases lk with
+  | found st =>
+    simp only [iusFails]
+    by_cases hm : ifModifiedSince now d st.mtime = true
+    · simp only [hm, if_true]
+      constructor
+      · intro h; exact absurd h (by decide)
+      · rintro ⟨st', t, hst, h1, h2, h3⟩
+        cases hst
+        have := (ifModifiedSince_false_iff now d st.mtime).2 ⟨t, h1, h2, h3⟩
+        rw [this] at hm; cases hm
+    · have hm' : ifModifiedSince now d st.mtime = false := by simpa using hm
+      obtain ⟨t, h1, h2, h3⟩ := (ifModifiedSince_false_iff now d st.mtime).1 hm'
+      simp only [hm', Bool.false_eq_true, if_false, true_iff]
+      exact ⟨st, t, rfl, h1, h2, h3⟩
+  | enoent => simp [iusFails]
+  | enotdir => simp [iusFails]
+  | other => simp [iusFails]
+
+/-- With the date the server itself renders (http_date_time_to_str, years 1000–9999) the test is the
+    comparison of instants: a client echoing Last-Modified of the current state passes, one echoing an
+    older Last-Modified gets 412. -/
+theorem c18_ius_rendered (now : Int) (flags : Nat) (st : Stat) (t : Int)
+    (h0 : -30610224000 ≤ t) (h1 : t ≤ 253402300799) (hm1 : t ≠ -1) :
+    precond now flags none none (some (timeToStr t)) (.found st) = 0 ↔ st.mtime ≤ t := by
+  rw [c18_ius_iff, timeToStr_eq t h0 h1]
+  have hr := (imf_roundtrip now t h0 h1).2
+  constructor
+  · rintro ⟨st', t', hst, hd, hle, _⟩
+    cases hst
+    rw [hr] at hd
+    cases hd
+    exact hle
+  · intro hle
+    exact ⟨st, t, rfl, hr, hle, hm1⟩
+
+example : precond 0 0 none none (some (timeToStr 1700000000)) (.found ⟨1, 2, 1700000001, 0⟩) = 412 := by decide
+
+/-- server.etag-flags empty (`etag_flags = 0`): If-Match and If-None-Match are not evaluated at all. -/
+theorem c18_flags0_ignores_entity_tags (now : Int) (im inm ius : Option Bytes) (lk : Lk) :
+    precond now 0 im inm ius lk = precond now 0 none none ius lk := by
+  rw [precond_flags0, precond_flags0]
+
+example : precond 0 0 (some (ofString "\"x\"")) none none .enoent = 0 := by decide
+
+end Conditional
 
 end LtVerif.C18
